@@ -121,4 +121,49 @@ CHECKS = {
         "assumptions": ["the written file is produced by the package's own writer; Make is expected to lay out hash tables identically (cdbmake layout)"],
         "required_probes": {"quick": ["file_larger_than_one_buffer", "keys_looked_up"], "thorough": ["file_larger_than_one_buffer", "keys_looked_up"]},
     },
+    "C15": {
+        "test": "TestC15",
+        "level": "exploration",
+        "budget": {"quick": 40, "thorough": 600},
+        "rule": ("each evaluation is a history of Add / Del / ExecuteBatch (duplicate and unsorted keys, adds and deletes) / read over 4 keys and 8 "
+                 "values (empty, prefixes of each other, equal-length neighbours, values that look like length prefixes) issued by 1-3 caller tasks on "
+                 "one real rdb.RDB, pre-empted by the seeded scheduler before the write lock and between the read and the write of every "
+                 "read-modify-write; up to 3 low-level RocksDB calls fail in the fault population. One caller: model comparison over the whole key "
+                 "alphabet after every operation; several callers: porcupine against the map-of-lists model (failed op = no-op). 1 in 8 runs ends with "
+                 "backup + restore into another directory and a full dump comparison. Non-trivial = more than two scheduling steps; distinct = schedule hash."),
+        "components": {
+            "real": ["rdb.RDB Add/Del/ExecuteBatch/Find/ForEach, Batch sort/merge/integrate, value-list codec", "RocksDB (cgo) primary database",
+                     "rdb.Backup / rdb.Restore (RocksDB backup engine)"],
+            "stub": ["error-injecting wrapper around the rdb.DBI handle"],
+            "simulated": ["goroutine scheduling at yield points (seeded)"],
+            "not_run": ["RocksDB background threads are real and unscheduled"],
+        },
+        "assumptions": ["the order of values inside one key is compared as a multiset, except that a single Add must append at the end (the batch path sorts with an unstable sort)"],
+        "required_probes": {"quick": ["preempted_inside_read_modify_write", "backup_restore"], "thorough": ["preempted_inside_read_modify_write", "backup_restore"]},
+    },
+    "C07": {
+        "test": "TestC07",
+        "level": "exploration",
+        "budget": {"quick": 45, "thorough": 900},
+        "replay": "verdict",
+        "rule": ("each evaluation compiles one generated data file (all 16 textual record types, few owner names so keys hold many values, several "
+                 "maps with nested/adjacent subnets, optionally one rejected line) with the real compiler under one setting drawn from {cdb, rocksdb v1, "
+                 "rocksdb v2} x {builder, batches with size 1..1000 and parallelism 0/1/2/4} x workers {1,2,3,8}; scanner, parser workers, collector and "
+                 "batch writers are scheduled by the seeded scheduler at their channel operations and around the batch read-modify-write; the input "
+                 "reader delivers seeded short reads and, in the fault population, fails at a seeded offset. The full dump of the product must equal "
+                 "the multiset the line-by-line codec emits sequentially (plus range points and feature record); a rejected line or read error must "
+                 "fail the compilation; with no fault pending it must terminate (a state with nothing enabled and no timer is a deadlock). Thorough "
+                 "tier: 1 in 30 runs compiles 70000-100000 records on real parallelism with the hooks in perturbation mode so that the bulk loader "
+                 "splits into several buckets. Non-trivial = more than 3 lines; distinct = schedule hash + file seed."),
+        "components": {
+            "real": ["dnsdata.ParseStream / parse (scanner, worker pool)", "dnsdata/cdb.CreateCDBFromReader + go-cdb writer", "rdb.Compile: compileBuilder "
+                     "(Builder, buckets, SST ingestion) and compileBatches (parallel ExecuteBatch under writeMutex)", "subnet rearranger (Accum.MarshalMap)", "RocksDB (cgo)"],
+            "stub": [],
+            "simulated": ["goroutine scheduling at the parser's and batch writers' yield points (seeded)", "input io.Reader (short reads, error at offset)"],
+            "not_run": ["rdb.DBI error injection inside rdb.Compile (no seam reaches the RDB it creates; not added, see DESIGN)"],
+        },
+        "assumptions": ["which blocked parser worker receives a line is the Go runtime's choice: replay is 'same verdict for the same scenario', the oracle is schedule-insensitive",
+                        "conflicting duplicate subnets (ill-formed, order dependent) are not generated"],
+        "required_probes": {"quick": ["multi_value_keys"], "thorough": ["multi_value_keys", "free_running_big_file"]},
+    },
 }
